@@ -42,6 +42,9 @@ type Case struct {
 	SlowWrite bool `json:"slowwrite,omitempty"`
 	// Flush: a history with Tflush (flush_test.go); Rounds is empty then.
 	Flush *FlushPlan `json:"flush,omitempty"`
+	// Extra: an extra answer through a packing helper at a chosen stage of the
+	// first reply's life (extra_test.go); Rounds is empty then.
+	Extra *ExtraPlan `json:"extra,omitempty"`
 }
 
 const deadline = 30 * time.Second
@@ -417,6 +420,13 @@ func genCase(t *rapid.T) *Case {
 				rs.Behav.Async, rs.Behav.Dup = true, true
 			case 6:
 				rs.Behav.DupRace = true
+			case 7:
+				// an extra answer through the packing helpers, directly behind the first
+				rs.Behav.DupPack = rapid.IntRange(1, 2).Draw(t, "duppack")
+				rs.Behav.Async = rapid.Bool().Draw(t, "async")
+				if rapid.IntRange(0, 2).Draw(t, "firsterr") == 0 {
+					rs.Behav.Err, rs.Behav.Ecode = "permission denied", 13
+				}
 			}
 			if rapid.IntRange(0, 2).Draw(t, "hold") == 0 {
 				rs.Behav.Hold = true
@@ -517,6 +527,15 @@ func execute(test string, c *Case) error {
 		labelFlush(c)
 		hx.Sample(test, c)
 		return verdict(runFlush(c))
+	}
+	if c.Extra != nil {
+		if extraNontrivial(c.Extra) {
+			b, _ := json.Marshal(c)
+			hx.NonTrivial(b)
+		}
+		labelExtra(c)
+		hx.Sample(test, c)
+		return verdict(runExtra(c))
 	}
 	if classify(c) {
 		b, _ := json.Marshal(c)
